@@ -1,10 +1,15 @@
 """C10 GMW: every party outputs f(inputs); dealt triples are valid."""
 import hashlib
+import json
 import os
 import re
 import shutil
+import sys
 
 import vlib
+
+sys.path.insert(0, os.path.dirname(os.path.abspath(__file__)))
+from t1 import run_t1  # noqa: E402  (T1 leaf translator tie, checks/t1.py)
 
 LEVEL = "proof"
 
@@ -22,7 +27,17 @@ THEOREMS = [
     "Mpc.C10_outputs",
     "Mpc.C10_offline_online",
     "Mpc.C10_concrete",
+    # histories of Run calls on one connected Network (Model/GmwHist.lean)
+    "Mpc.C10_run_is_first_call",
+    "Mpc.C10_run_from_state",
+    "Mpc.C10_history",
+    "Mpc.C10_history_offline_online",
+    "Mpc.C10_history_concrete",
 ]
+
+# relation of the circuit of a call to the circuit of the previous call on the same Network (harness/cmd/c10/hist.go)
+HIST_RELATIONS = ["same-object", "copy", "rewire", "same-depth", "deeper", "shallower", "wider-in", "narrower-in",
+                  "zero-and", "mpcl", "or-last"]
 
 HOOK_SRC = os.path.join(vlib.VERIF, "hooks", "c10-gmw-verif_export.go")
 
@@ -108,8 +123,31 @@ def install_hook(ctx):
              vlib.sha(open(dst).read()), vlib.sha(src))
 
 
+def replay_request():
+    """bin/check C10 --replay F: (mode, seed, n, case) when F holds a failing session / history of the harness.  The
+    harness derives every case from (seed, case index), so `-only <case>` re-runs exactly that case."""
+    if "--replay" not in sys.argv:
+        return None
+    try:
+        f = sys.argv[sys.argv.index("--replay") + 1]
+        f = f if os.path.isabs(f) else os.path.join(vlib.VERIF, f)
+        fl = (json.load(open(f)).get("failure") or {})
+        m = re.match(r"hx-c10 (sess|hist) -seed (\d+) -n (\d+) -only (\d+) -tier \w+$", fl.get("rerun", ""))
+        return (m.group(1), int(m.group(2)), int(m.group(3)), int(m.group(4))) if m else None
+    except Exception:
+        return None
+
+
+WHAT = {"tb": "tripleBatch c shares of every party (shadow IKNP instances)",
+        "pool": "Triples.Append / TriplePool.Get sequences, bit-vector leaf functions",
+        "sess": "complete wire-share vectors, consumed triple words and outputs of every party",
+        "hist": "histories of 2..5 Run calls on one Network: complete wire stores (stale bits included) and outputs of "
+                "every party after every call, consumed triple words over the whole history"}
+
+
 def run(ctx):
     ctx.prove("MpcVerif.Props.C10", THEOREMS)
+    run_t1(ctx, ["C10"])          # gmw/bitvec.go = Gmw.bit/setBit/xorBitvec/expand/expandClear
     if ctx.tier == "thorough":
         ctx.leanchecker("MpcVerif.Props.C10")
     ctx.build_drv()
@@ -120,17 +158,31 @@ def run(ctx):
     install_hook(ctx)
     quick = ctx.tier == "quick"
     if ctx.build_hx():
+        # ---- --replay of one recorded session / history: exactly that case; a reproduced failure decides the run
+        rq = replay_request()
+        if rq:
+            mode, seed, n, case = rq
+            ops, out, meta = ctx.run_hx(mode, n, seed=seed, extra_args=["-only", str(case)], tag="-replay", timeout=1700)
+            ctx.absorb_meta(meta, prefix="replay_")
+            if os.path.exists(ops) and os.path.getsize(ops) > 0:
+                ctx.correspond("replayed %s case %d of seed %d (%s)" % (mode, case, seed, WHAT[mode]), ops, out)
+            print("replayed %s case %d of seed %d (n=%d): %d oracle failure(s)" % (mode, case, seed, n, len(ctx.fails)))
+            for f in ctx.fails[:3]:
+                print("  " + json.dumps({k: v for k, v in f.items() if k not in ("history", "circuit", "src")})[:600])
+            if ctx.fails:
+                ctx.coverage["rule"] = "replay of one recorded %s case (the full check was not run)" % mode
+                return ctx.finish("Replay: %s case %d of seed %d was re-generated from its seed and re-run on real gmw "
+                                  "networks; the oracle fails again." % (mode, case, seed))
+            print("the replayed case no longer fails; running the full check")
         plan = [("tb", 24 if quick else 200, ctx.seed), ("pool", 1000 if quick else 8000, ctx.seed),
-                ("sess", 84 if quick else 330, ctx.seed)]
+                ("sess", 84 if quick else 330, ctx.seed), ("hist", 28 if quick else 160, ctx.seed)]
         if not quick:
             plan.append(("sess", 330, ctx.seed + 1000))
+            plan.append(("hist", 160, ctx.seed + 1000))
         for mode, n, seed in plan:
             ops, out, meta = ctx.run_hx(mode, n, seed=seed, timeout=1700)
             ctx.absorb_meta(meta, prefix=mode + "_")
-            what = {"tb": "tripleBatch c shares of every party (shadow IKNP instances)",
-                    "pool": "Triples.Append / TriplePool.Get sequences, bit-vector leaf functions",
-                    "sess": "complete wire-share vectors, consumed triple words and outputs of every party"}[mode]
-            ctx.correspond("%s (%s, seed %d)" % (mode, what, seed), ops, out)
+            ctx.correspond("%s (%s, seed %d)" % (mode, WHAT[mode], seed), ops, out)
             for line in open(ops, errors="replace"):
                 ctx.distinct.add(hashlib.sha1(line.encode()).digest())
         c = ctx.coverage.get("counters", {})
@@ -144,11 +196,21 @@ def run(ctx):
                    c.get("sess_pools_dealt_whole_words", 0) > 0 and c.get("sess_pools_dealt_partial_words", 0) == 0,
                    str({k: v for k, v in c.items() if "pools_dealt" in k}))
         ctx.oblige("a Get that had to wait for arriving batches ran (pool ops)", c.get("pool_pool_get_blocked", 0) > 0, str(c))
+        hc = {k: v for k, v in c.items() if k.startswith("hist_")}
+        ctx.oblige("histories on one Network: 2, 3, 4 and 5 parties; 2..5 calls; every relation between consecutive circuits "
+                   "(%s) ran; consecutive DIFFERENT circuits of the same AND depth, a smaller and a larger circuit after "
+                   "the previous one ran; histories were replayed on the model" % ", ".join(HIST_RELATIONS),
+                   all(hc.get("hist_parties_%d" % k, 0) > 0 for k in (2, 3, 4, 5)) and
+                   all(hc.get("hist_calls_%d" % k, 0) > 0 for k in (2, 3, 4, 5)) and
+                   all(hc.get("hist_rel_" + r, 0) > 0 for r in HIST_RELATIONS) and
+                   hc.get("hist_consecutive_different_circuits_same_and_depth", 0) > 0 and
+                   hc.get("hist_consecutive_fewer_wires", 0) > 0 and hc.get("hist_consecutive_more_wires", 0) > 0 and
+                   hc.get("hist_hist_ops", 0) > 0, str(hc))
         ctx.coverage["programs"] = c.get("sess_sessions", 0)
         if ctx.widen:
             # widened search for a concrete failing input
             for s in range(ctx.seed + 7000, ctx.seed + 7003):
-                for mode, n in (("tb", 60), ("sess", 60)):
+                for mode, n in (("tb", 60), ("sess", 60), ("hist", 40)):
                     ops, out, meta = ctx.run_hx(mode, n, seed=s, tag="-widen", timeout=1700)
                     ctx.absorb_meta(meta, prefix="widen_")
                 if ctx.fails:
@@ -159,7 +221,11 @@ def run(ctx):
         "circuits with AND batch sizes on word boundaries and INV gates; 'snap' sessions wait for the pools' stable level, "
         "snapshot them and are replayed on the model, 'race' sessions start Run while triples are still being generated; "
         "tb: tripleBatch for 2..5 parties, batch sizes 64..8192; pool: random Append/Get/Clear/arrival sequences with "
-        "blocking Gets. distinct = distinct op lines")
+        "blocking Gets; hist: histories of 2..5 consecutive Run calls on ONE connected network (snap / race as above), the "
+        "circuit of a call related to the previous one as: " + ", ".join(HIST_RELATIONS) + " (synthetic circuits of a given "
+        "shape = input widths, per-level AND widths; some with wires no gate assigns, which keep the bit of an earlier call); "
+        "every call's outputs, wire shares and the pool position after the whole history are judged and replayed on the "
+        "model's fold over the Network state. distinct = distinct op lines")
     ctx.assumptions += [
         "the bit-COT correlation r = s xor Delta0*b is a hypothesis of C10_triples_valid (property C06 proves it for the "
         "IKNP model when n % 64 = 0; tripleBatch sizes are 4096 and 8192 - checked as a fact; the tb harness re-checks it "
@@ -179,10 +245,15 @@ def run(ctx):
         "correlation every dealt triple word satisfies (xor a)&(xor b) = xor c; TriplePool.Get removes exactly "
         "ceil(count/64) words of the stream whatever the arrival schedule; for every single-assignment circuit without OR "
         "gates, every input, every sharing randomness and valid pools with enough words, the level-wise evaluation keeps "
-        "xor-of-shares = plain value on every wire and every party returns Circuit.compute. Tie: the same Lean definitions "
+        "xor-of-shares = plain value on every wire and every party returns Circuit.compute; the same from ANY state a "
+        "Network is in between two calls (arbitrary stale wire store, pool position) and, by induction, for every call of "
+        "every history of calls on one Network (C10_history: outputs of call i = compute of circuit i on inputs i, pools = "
+        "initial pools minus the first sum-of-needs words). Tie: the same Lean definitions "
         "replayed on (a) tripleBatch at 2..5 parties with shadow IKNP instances revealing sBits/rBits, (b) Triples.Append / "
         "TriplePool.Get op sequences incl. blocked Gets, (c) real TCP sessions: from the observed input shares and pool "
-        "snapshots the model reproduces every party's complete wire-share vector, consumed word count and outputs. "
+        "snapshots the model reproduces every party's complete wire-share vector, consumed word count and outputs, (d) "
+        "histories of 2..5 Run calls on one Network: the model's runHist reproduces every party's complete wire store "
+        "(bits left by earlier calls included) and outputs after every call and the words consumed by the whole history. "
         "Oracle on the real code: results = Circuit.Compute at every party, xor of shares = reference value on every wire, "
         "triple relation on pool snapshots / Pool.Get output / tripleBatch output, lockstep consumption, completion under a "
         "deadline, Close returns nil.")
